@@ -876,3 +876,48 @@ def accum_order(ctx: Ctx) -> None:
         sa_, sb_ = side(a), side(b)
         ok = sa_ == "acc" and sb_ == "new"
         ctx.ob(f, c, ok, f"`{unparse(c, 60)}` concatenates [accumulated, new] (found [{sa_}, {sb_}])" + ("" if ok else " — the sibling branch uses the opposite order: block order along the axis is reversed for this kind of intermediate"), sel=f"accum:{unparse(c.args[0], 40)}")
+
+
+@rule("DIVZERO-1", props=["C17"], floor=2)
+def divzero(ctx: Ctx) -> None:
+    """a division / modulo by the length of a sequence is protected against the empty case
+    (`or k`, `max(.., k)`, or a dominating emptiness test): otherwise a zero-dimensional or
+    empty operand surfaces as an incidental ZeroDivisionError instead of an explicit refusal"""
+    repo = ctx.repo
+    n = 0
+    for d in repo.functions():
+        mq = d.module.qual
+        if mq.startswith(("cubed.vendor.", "cubed.diagnostics.", "cubed.runtime.executors.")):
+            continue
+        for b in d.own_nodes():
+            if not (isinstance(b, ast.BinOp) and isinstance(b.op, (ast.Div, ast.FloorDiv, ast.Mod))):
+                continue
+            if isinstance(b.left, (ast.Constant, ast.JoinedStr)) and isinstance(getattr(b.left, "value", None), str):
+                continue  # string formatting
+            lens = [x for x in ast.walk(b.right) if isinstance(x, ast.Call) and isinstance(x.func, ast.Name) and x.func.id == "len"]
+            if not lens:
+                continue
+            n += 1
+            r = b.right
+            safe = False
+            why = ""
+            if isinstance(r, ast.BoolOp) and isinstance(r.op, ast.Or) and isinstance(r.values[-1], ast.Constant) and r.values[-1].value:
+                safe = True
+            if isinstance(r, ast.Call) and isinstance(r.func, ast.Name) and r.func.id == "max" and any(isinstance(a, ast.Constant) and isinstance(a.value, (int, float)) and a.value >= 1 for a in r.args):
+                safe = True
+            if not safe:
+                cfg = cfg_of(d)
+                if cfg.has(b):
+                    at = cfg.node_of(b)
+                    for t, pol in facts_at(cfg, at):
+                        txt = unparse(t, 200)
+                        if "len(" in txt and ("== 0" in txt or "> 0" in txt or ">= 1" in txt or "!= 0" in txt):
+                            safe = True
+                        if isinstance(t, ast.UnaryOp) or (isinstance(t, ast.Name)):
+                            pass
+                    # an early `return`/`raise` on emptiness that dominates the division
+                    for bn in cfg.stmts(ast.If):
+                        if cfg.dominates(bn.id, at) and "len(" in unparse(bn.stmt.test, 200) and "== 0" in unparse(bn.stmt.test, 200):
+                            safe = True
+            ctx.ob(d, b, safe, f"`{unparse(b, 60)}` divides by a length" + (" that is protected against zero" if safe else ": nothing excludes the empty case — ZeroDivisionError for an empty/0-d operand instead of an explicit error"), sel=f"div:{unparse(b.right, 40)}")
+    ctx.need(n >= 2, f"only {n} divisions by a length found")
